@@ -11,6 +11,7 @@ import (
 	"flag"
 	"fmt"
 	"os"
+	"runtime/pprof"
 	"sort"
 	"strings"
 	"time"
@@ -102,6 +103,9 @@ func cmdRun(args []string) int {
 	trace := fs.Bool("trace", false, "trace SSA")
 	smtlog := fs.String("smtlog", "", "log solver dialogue")
 	maxPaths := fs.Int("maxpaths", 0, "path bound")
+	cpuprof := fs.String("cpuprofile", "", "write cpu profile")
+	force := fs.String("force", "", "name=value,... fixes nondetChoice values")
+	progress := fs.Bool("progress", false, "print progress to stderr")
 	var harness string
 	if len(args) > 0 && !strings.HasPrefix(args[0], "-") {
 		harness = args[0]
@@ -111,6 +115,20 @@ func cmdRun(args []string) int {
 	if harness == "" && fs.NArg() > 0 {
 		harness = fs.Arg(0)
 	}
+	if *cpuprof != "" {
+		f, _ := os.Create(*cpuprof)
+		pprof.StartCPUProfile(f)
+		defer pprof.StopCPUProfile()
+	}
+	forced = map[string]int{}
+	for _, kv := range strings.Split(*force, ",") {
+		if k, v, ok := strings.Cut(kv, "="); ok {
+			var n int
+			fmt.Sscan(v, &n)
+			forced[k] = n
+		}
+	}
+	showProgress = *progress
 	res := runHarness(harness, *pkgdir, *tier, *solver, *timeout, *trace, *smtlog, *maxPaths)
 	data, _ := json.MarshalIndent(res, "", " ")
 	if *out != "" {
@@ -143,6 +161,9 @@ func cmdRun(args []string) int {
 	}
 	return 0
 }
+
+var forced map[string]int
+var showProgress bool
 
 func runHarness(harness, pkgdir, tier, solverName string, timeoutMs int, trace bool, smtlog string, maxPaths int) *RunResult {
 	start := time.Now()
@@ -227,6 +248,8 @@ func runHarness(harness, pkgdir, tier, solverName string, timeoutMs int, trace b
 		}
 	}
 	ex.Known = loadKnown()
+	ex.Forced = forced
+	ex.Progress = showProgress
 	m := interp.NewMachine(ld.prog, ld.ppkg.TypesSizes, []string{ld.pkg.Pkg.Path()})
 	if trace {
 		m.SetTracing()
